@@ -399,6 +399,17 @@ class Frame:
         else:
             raise AnalysisError(f'{self.fn.fq}: statement {type(st).__name__} not supported by the decision-table extractor')
 
+    def quiet(self, node: ast.AST) -> Any:
+        """Value of a test expression without branching on it: a single comparison of symbolic operands stays a symbolic
+        boolean named after the comparison (used where the test is an element predicate, not a branch of this path)."""
+        if isinstance(node, ast.Compare) and len(node.ops) == 1:
+            left, right = self.eval(node.left), self.eval(node.comparators[0])
+            if any(isinstance(x, (Opaque, Tok, Obj, BV)) for x in (left, right)):
+                sym = {ast.Eq: '==', ast.NotEq: '!=', ast.In: 'in', ast.NotIn: 'not in', ast.Is: 'is', ast.IsNot: 'is not', ast.Lt: '<',
+                       ast.LtE: '<=', ast.Gt: '>', ast.GtE: '>='}[type(node.ops[0])]
+                return Opaque(f'{_tag(left)} {sym} {_tag(right)}')
+        return self.eval(node)
+
     def _search_loop(self, st: ast.For) -> bool:
         """`for x in IT: if P(x): <flags := constants>; break` is `if any(P(x) for x in IT): <flags := constants>`.
 
@@ -408,10 +419,12 @@ class Frame:
         if st.orelse or len(body) != 1 or not isinstance(body[0], ast.If) or body[0].orelse:
             return False
         test = body[0].test
-        if not isinstance(test, (ast.Call, ast.Attribute, ast.Name)):
+        if not isinstance(test, (ast.Call, ast.Attribute, ast.Name)) and not (isinstance(test, ast.Compare) and len(test.ops) == 1):
             return False
         acts = body[0].body
-        if not acts or not isinstance(acts[-1], ast.Break):
+        if not acts or not isinstance(acts[-1], (ast.Break, ast.Return)):
+            return False
+        if isinstance(acts[-1], ast.Return) and not (acts[-1].value is None or isinstance(acts[-1].value, ast.Constant)):
             return False
         for a in acts[:-1]:
             if not (isinstance(a, ast.Assign) and len(a.targets) == 1 and isinstance(a.targets[0], ast.Name) and
@@ -422,7 +435,7 @@ class Frame:
         self.assign(st.target, Opaque(f'elem({_tag(it)})'))
         self.ev.ctx.append(f'for:{_tag(it)}')
         try:
-            v = self.eval(test)
+            v = self.quiet(test)
         finally:
             self.ev.ctx.pop()
         for k in {x.id for x in ast.walk(st.target) if isinstance(x, ast.Name)}:
@@ -433,6 +446,8 @@ class Frame:
         if self.truth_value(Opaque(f'any(comp({_tag(v)} for {_tag(it)}))')):
             for a in acts[:-1]:
                 self.locals[a.targets[0].id] = a.value.value
+            if isinstance(acts[-1], ast.Return):
+                raise _Return(acts[-1].value.value if acts[-1].value is not None else None)
         return True
 
     def loop(self, st: ast.For | ast.While) -> None:
@@ -569,6 +584,8 @@ class Frame:
             tag = v.tag
             if tag.startswith('not(') and tag.endswith(')'):
                 return not self.ev.decide(tag[4:-1])
+            if tag not in self.ev.decisions and self.ev.decisions.get(f'{tag} is not None') is False:
+                return False  # it is None
             return self.ev.decide(tag)
         if isinstance(v, Tok):
             return bool(v.parts)
@@ -865,7 +882,10 @@ class Frame:
         if isinstance(op, (ast.Is, ast.IsNot)) and (b is None or a is None):
             other = a if b is None else b
             if isinstance(other, Opaque):
-                r = not self.ev.decide(f'{other.tag} is not None')
+                if f'{other.tag} is not None' not in self.ev.decisions and self.ev.decisions.get(other.tag) is True:
+                    r = False  # truthy, hence not None
+                else:
+                    r = not self.ev.decide(f'{other.tag} is not None')
                 return r if isinstance(op, ast.Is) else not r
             isnone = other is None
             return isnone if isinstance(op, ast.Is) else not isnone
@@ -963,7 +983,7 @@ class Frame:
             if isinstance(n, ast.DictComp):
                 elt = (self.eval(n.key), self.eval(n.value))
             else:
-                elt = self.eval(n.elt)
+                elt = self.quiet(n.elt)
             return Opaque(f'comp({_tag(elt)} for {" ".join(tags)})')
         finally:
             for _ in range(pushed):
@@ -1138,7 +1158,12 @@ class Frame:
             if isinstance(base, str):
                 return Tok((f'format({base!r}; ' + ', '.join(_tag(a) for a in args) +
                             ''.join(f', {k}={_tag(v)}' for k, v in kwargs.items()) + ')',))
-        return Opaque(f'{name}(' + ', '.join([_tag(a) for a in args] + [f'{k}={_tag(v)}' for k, v in kwargs.items()]) + ')')
+        res = Opaque(f'{name}(' + ', '.join([_tag(a) for a in args] + [f'{k}={_tag(v)}' for k, v in kwargs.items()]) + ')')
+        if isinstance(f, ast.Attribute) and f.attr in LIST_MUTATORS and isinstance(f.value, ast.Name) and \
+                isinstance(self.locals.get(f.value.id), Opaque):
+            # the receiver is changed in place: later reads see a new version of it
+            self.locals[f.value.id] = Opaque(self.locals[f.value.id].tag + "'")
+        return res
 
     def _builtin_effect(self, obj: Any, attr: str, args: list) -> Any:
         if isinstance(obj, MSet):
@@ -1187,8 +1212,8 @@ class Frame:
             return f'{target.module}:{target.name}'
         if isinstance(target, ExtRef):
             return f'{target.module}.{target.name}'
-        if isinstance(target, Opaque) and isinstance(f, ast.Attribute):
-            return target.tag  # value-based: independent of what the receiver's local variable is called
+        if isinstance(target, Opaque):
+            return target.tag  # value-based: independent of what the local variable holding the callee / receiver is called
         return norm_src(f)
 
     def _inline(self, fi: FuncInfo, args: list, kwargs: dict, obj: Obj | None) -> Any:
